@@ -1,10 +1,10 @@
 """C14 — transport descriptors parse totally and faithfully.
 
 Tie to /repo, re-made on every run:
-  * translators/t_c14_tables.py regenerates the six parser tables, the dispatch order of
-    create_transport and the constructor signatures from transport.py into coq/gen/C14Tables.v
-    (fail-closed; the generated well-formedness / shape obligations are re-checked by coqc), and the
-    translation is cross-checked against the table objects Python actually builds;
+  * translators/t_c14_tables.py regenerates the parser tables (from the live parser objects), the
+    constructor signatures (inspect) and, by probing the real create_transport, which parser and class
+    serve each interface, into coq/gen/C14Tables.v (fail-closed; the generated well-formedness /
+    shape obligations are re-checked by coqc); no syntactic shape of transport.py is demanded;
   * the real create_transport and the real TransportDescriptorParser (its six instances and freshly
     built instances over random well-formed tables) run on generated descriptors; the Coq model
     (theories/C14/Model.v) is evaluated on the same cases.  The model's library functions (int(),
@@ -150,10 +150,13 @@ def impl_create(s, d):
     return ("ok", cls, args, t._is_open)
 
 
+LIVE_IFACES = None     # interfaces for which the tree under test has a parser object (set by prepare_tables)
+
+
 def real_parser(T, iface):
-    for p in (T.SerialTransportDescriptorParser, T.UdpTransportDescriptorParser, T.TcpTransportDescriptorParser,
-              T.UsbTmcTransportDescriptorParser, T.GpibTransportDescriptorParser, T.Vxi11TransportDescriptorParser):
-        if p.interface == iface:
+    """the first module-level TransportDescriptorParser instance claiming this interface"""
+    for p in vars(T).values():
+        if isinstance(p, T.TransportDescriptorParser) and p.interface == iface:
             return p
     raise KeyError(iface)
 
@@ -805,10 +808,13 @@ def gen_cases(ck):
     for _ in range(800 * mult):
         base = rng.choice(pool)
         first = base["s"].lstrip(":").split(":")[0].lower()
-        iface = first if (first in SPEC and rng.random() < 0.9) else rng.choice(list(SPEC))
+        avail = [i for i in SPEC if LIVE_IFACES is None or i in LIVE_IFACES]
+        if not avail:
+            break
+        iface = first if (first in avail and rng.random() < 0.9) else rng.choice(avail)
         cases.append({"mode": "parse", "table": ("real", iface), "s": base["s"], "d": base["d"], "kind": "parse-real",
                       "iface": iface})
-    for _ in range(200 * mult):
+    for _ in range(200 * mult if (LIVE_IFACES is None or "gpib" in LIVE_IFACES) else 0):
         c = gen_wellformed(rng, "gpib")
         if c is None:
             continue
@@ -920,35 +926,22 @@ def replay_obj(c, o, extra=None):
 
 
 def prepare_tables(ck):
-    """Translate + cross-check against the live table objects.  Returns obligations or None."""
+    """Regenerate coq/gen/C14Tables.v from the live view of the tree under test.  Returns obligations or None."""
+    global LIVE_IFACES
     try:
         tr, obligations = t_c14_tables.run(common.REPO, GEN, with_proofs=True)
     except (t_c14_tables.TranslationError, SyntaxError, OSError) as e:
-        ck.report("tie:translator", "t_c14_tables could not translate transport.py (broken tie): %s" % e,
+        ck.report("tie:translator", "t_c14_tables could not express the tree's parser tables / dispatch in the model "
+                                    "(broken tie): %s" % e,
                   {"broken": "translator t_c14_tables", "error": str(e)}, found_input=False)
         return None
-    T = impl()
-    inv = {v: k for k, v in PYTY.items()}
-    for e in tr["entries"]:
-        p = getattr(T, e["parser"], None)
-        live = None
-        if p is not None:
-            try:
-                live = {"iface": p.interface, "pos": [(n, inv[t], r) for n, (t, r) in p._positionals],
-                        "kw": [(n, inv[t], r) for n, (t, r) in p._keywords.items()]}
-            except Exception as ex:  # noqa
-                live = repr(ex)
-        want = {"iface": e["table"]["iface"], "pos": [tuple(x) for x in e["table"]["pos"]],
-                "kw": [tuple(x) for x in e["table"]["kw"]]}
-        if live != want:
-            ck.report("tie:translator-live-mismatch",
-                      "translated table %s differs from the object Python builds" % e["parser"],
-                      {"broken": "translator t_c14_tables", "translated": want, "live": live}, found_input=False)
-            return None
-    ck.coverage["translated_tables"] = {e["table"]["iface"]: {"class": e["class"], "kind": e["kind"],
-                                                              "positionals": e["table"]["pos"],
+    LIVE_IFACES = [e["table"]["iface"] for e in tr["entries"]] + [x["table"]["iface"] for x in tr["undispatched"]]
+    ck.coverage["translated_tables"] = {e["table"]["iface"]: {"parser": e["parser"], "class": e["class"],
+                                                              "kind": e["kind"], "positionals": e["table"]["pos"],
                                                               "keywords": e["table"]["kw"], "ctor": e["ctor"]}
                                         for e in tr["entries"]}
+    ck.coverage["parsers_not_reachable_from_create_transport"] = [x["parser"] for x in tr["undispatched"]]
+    ck.coverage["syntactic_crosscheck"] = t_c14_tables.syntax_crosscheck(tr, common.REPO)
     return obligations
 
 
@@ -973,8 +966,9 @@ def run(ck):
         "Coq 8.16.1 kernel (vm_compute for generated table obligations and for evaluating the model on cases)",
         "hand-written model theories/C14/Model.v (tokeniser = transcription of the regex of _parse_parts; generic "
         "table-driven parser; constructor validation), tied to /repo by this run's correspondence",
-        "translator harness/translators/t_c14_tables.py (python ast, fail-closed; cross-checked against the live "
-        "table objects)",
+        "translator harness/translators/t_c14_tables.py: tables, constructor signatures and responder port read "
+        "from the live objects of the tree under test; parser/class per interface found by probing the real "
+        "create_transport with recording parsers and constructors; fail-closed where the model cannot express them",
         "python harness c14.py: trip-wire stubs for socket/serial/vxi11/usb as seen from qmi.core.transport*, "
         "gethostbyname('localhost') stubbed to 127.0.0.1, reading back private attributes of the created transport",
         "CPython int()/int(.,16)/float(), QMI's _is_valid_hostname/_is_valid_ipaddress (glibc inet_pton): "
